@@ -159,6 +159,9 @@ func runC04(c *Ctx) {
 		var tags []string
 		if stream == "journal" {
 			opts := JGenOpts{MaxAccounts: r.Range(2, 6), MaxDays: r.Range(1, 5), Mutate: true, Unicode: true, Accruals: r.Chance(1, 3), BaseDay: 737000 + r.Intn(2000), SpanDays: r.Range(0, 10)}
+			if ii%subEvery == 0 {
+				opts.Prices, opts.Valuation = true, "CHF" // the windowed, valued report of the CLI stream needs prices
+			}
 			j, tags = GenJournal(r, opts)
 			if r.Chance(1, 6) && WidenDates(r, j) {
 				tags = append(tags, "wide-dates")
@@ -260,6 +263,25 @@ func runC04(c *Ctx) {
 					}
 				}
 				c.Monitor(stream, i, "cli_verdict_"+cmd, in, okCLI, detail)
+			}
+			// a rejected journal is rejected whatever part of it the report shows: a window that ends before the offending
+			// directive, a valuation, an interval (seeded change C04-e cut the journal at --to before the checker ran when -v is given)
+			if verdict != "ok" && len(j.Dirs) > 0 {
+				lo, hi := j.Dirs[0].Date, j.Dirs[0].Date
+				for _, d := range j.Dirs {
+					if d.Date < lo {
+						lo = d.Date
+					}
+					if d.Date > hi {
+						hi = d.Date
+					}
+				}
+				for _, extra := range [][]string{{"--to", fmtDate(lo + r.Intn(hi-lo+1))}, {"-v", "CHF", "--to", fmtDate(lo + r.Intn(hi-lo+1))}, {"-v", "CHF", "--months", "--last", "1"}, {"--from", fmtDate(hi + 1)}} {
+					args := append(append([]string{"balance"}, extra...), path)
+					code, stdout, stderr := runKnut(c.KnutBin, 10*time.Second, nil, args...)
+					c.Monitor(stream, i, "cli_rejects_whatever_the_window", map[string]any{"journal": text, "args": strings.Join(args[:len(args)-1], " ")}, code != 0 && stdout == "",
+						fmt.Sprintf("knut %s: exit %d although the journal is ill-formed (in-process verdict %s); stdout %q stderr %q", strings.Join(args[:len(args)-1], " "), code, verdict, clip(stdout), clip(stderr)))
+				}
 			}
 		}
 	}
